@@ -118,7 +118,8 @@ GEN[("C14", "quick")] = [("zerorep", ["P:B", "P:A", "R:B"], 2, 0, 2, 0)]
 GEN[("C14", "thorough")] = [("zerorep", ["P:B", "P:A", "R:B"], 3, 1, 3, 0)]
 # C18 at the real driver (see ALIAS): large batches - nine keys released at once by the tablet switch, bursts of pass-through events
 GEN[("C18", "quick")] = [("passthru", ["R:1"], 1, 1, 0, 0, NINE), ("basic", ["P:A", "R:A"], 1, 1, 0, 0, 20)]
-GEN[("C18", "thorough")] = [("passthru", ["R:1", "P:A"], 2, 2, 0, 0, NINE), ("basic", ["P:A", "R:A"], 2, 1, 0, 0, 40), ("passthru", ["R:1"], 1, 1, 0, 0, SEVENTEEN)]
+# (two arrivals around a 40-event burst, or two tablet events around a nine-key burst, take TLC the better part of an hour to enumerate: one of each)
+GEN[("C18", "thorough")] = [("passthru", ["R:1", "P:A"], 2, 1, 0, 0, NINE), ("basic", ["P:A", "R:A"], 1, 1, 0, 0, 40), ("passthru", ["R:1"], 1, 1, 0, 0, SEVENTEEN)]
 # random (simulated) behaviours at larger bounds
 SIM = {
     "C10": [("basic", ["P:A", "R:A", "P:S", "R:S"], 6, 1, 1, 1), ("absorb", ["P:C", "P:A", "R:A", "P:B", "R:C"], 6, 1, 0, 1)],
